@@ -1,6 +1,6 @@
 (* C06 — Outbound QoS1/2: stored until acknowledged, retransmitted on session resume.
-   Statements only; proofs in Conn/Session.v.  Nothing else may be added to this file. *)
-From MQ Require Import Base.Prelude Alloc.Alloc Conn.Types Conn.ConnRecord Conn.Step Corr.ConnTrace Conn.RecvGate Conn.Session.
+   Statements only; proofs in Conn/Session.v, Conn/StoreInv.v and Conn/StoreInv2.v.  Nothing else may be added to this file. *)
+From MQ Require Import Base.Prelude Alloc.Alloc Conn.Types Conn.ConnRecord Conn.Step Corr.ConnTrace Conn.Run Conn.RecvGate Conn.Session Conn.StoreInv Conn.StoreInv2.
 
 (* every state: an acknowledgement that matches nothing in flight is handled exactly like a
    protocol error — which erases no stored packet and frees no identifier (C06_error_keeps) *)
@@ -28,11 +28,56 @@ Theorem C06_accepted_sent_or_stored_v311 : forall c p,
 Proof. exact accepted_sent_or_stored_v311. Qed.
 Print Assumptions C06_accepted_sent_or_stored_v311.
 
-(* C06_partial: the history clauses (stays stored until exactly the matching acknowledgement;
-   retransmission right after CONNACK, in order, DUP, full topic; emptied when the session is not
-   present) and the v5.0 form of the theorem above are decided by the monitor mon_c06 — a ghost
-   store built from operations and events compared with the exported store — and by the
-   correspondence; they are not yet theorems. *)
+(* every call of the API, every state, both versions: a call that is not a release point for x keeps
+   x's entry in the store.  Release points ([releases]): the matching kind of acknowledgement carrying
+   x, erase_stored_publish x, a clean-start CONNECT sent or received, a CONNACK received that does not
+   keep the session or under whose limit an entry of x no longer fits (the oversize drop on resume),
+   a CONNACK sent while an entry of x does not fit the client's limit, a close that does not keep the
+   session — and a v5.0 PUBLISH sent with x itself (excluded by the application contract). *)
+Theorem C06_step_keeps_stored : forall x g c o,
+  op_oracle_ok c o -> releases x c o = false -> store_has x (c_store c) = true ->
+  match step g c o with Ok (c', _, _) => store_has x (c_store c') = true | Panic _ => True end.
+Proof. exact step_keeps_stored. Qed.
+Print Assumptions C06_step_keeps_stored.
+
+(* every history without a release point for x, of any length: across persistent closes and resumes *)
+Theorem C06_stored_until_released : forall x g ops c,
+  store_has x (c_store c) = true -> quiet_history x g c ops ->
+  match run_state g c ops with Some c' => store_has x (c_store c') = true | None => True end.
+Proof. exact stored_until_released. Qed.
+Print Assumptions C06_stored_until_released.
+
+(* resume, client side: the call that processes a CONNACK with Session Present requests exactly the
+   stored packets that fit the (possibly new) limit, in store order, as PUBLISH/PUBREL with the stored
+   identifiers, and nothing else; what does not fit is no longer stored *)
+Theorem C06_connack_received_resumes_in_order : forall c v p c' e,
+  recv_connack c v (PROk p) = Ok (c', e) ->
+  status_eqb (c_status c) Connected = false -> k_rc p = 0 -> k_flag p = true ->
+  (version_eqb v V50 = true -> match k_sei p with Some 0 => False | _ => True end) ->
+  sends e = map store_into (fst (send_stored_l (connack_limit c v p) (c_store c))) /\
+  c_store c' = fst (send_stored_l (connack_limit c v p) (c_store c)).
+Proof. exact connack_received_resumes_in_order. Qed.
+Print Assumptions C06_connack_received_resumes_in_order.
+
+(* resume, server side: right after the successful CONNACK, before any other packet *)
+Theorem C06_connack_sent_resumes_in_order : forall c p c' e,
+  send_connack c p = Ok (c', e) -> k_rc p = 0 -> existsb is_error e = false ->
+  sends e = p :: map store_into (fst (send_stored_l (c_mps_send c) (c_store c))).
+Proof. exact connack_sent_resumes_in_order. Qed.
+Print Assumptions C06_connack_sent_resumes_in_order.
+
+(* session not present: the store is emptied and nothing is retransmitted *)
+Theorem C06_connack_without_session_empties_store : forall c v p c' e,
+  recv_connack c v (PROk p) = Ok (c', e) ->
+  status_eqb (c_status c) Connected = false -> k_rc p = 0 -> k_flag p = false ->
+  c_store c' = [] /\ sends e = [].
+Proof. exact connack_without_session_empties_store. Qed.
+Print Assumptions C06_connack_without_session_empties_store.
+
+(* C06_partial: what is still decided by the monitor mon_c06 (ghost store from operations and events
+   against the exported store) and the correspondence rather than a theorem: that the identifier of a
+   stored exchange stays HELD over histories (needs the allocator's representation invariant jointly
+   with the store, under the application contract), and the v5.0 form of accepted_sent_or_stored. *)
 
 Example C06_nonvacuous :
   let g := mkCfg RClient 65535 2 in
@@ -43,3 +88,15 @@ Example C06_nonvacuous :
   | Panic _ => False
   end.
 Proof. vm_compute. split; [reflexivity|]. right; now left. Qed.
+
+(* the history theorem's premises are satisfiable: a stored QoS 1 PUBLISH, a history with an unrelated
+   acknowledgement error, a timer, a persistent close and a reconnect in it *)
+Example C06_history_nonvacuous :
+  let g := mkCfg RClient 65535 2 in
+  let q := mkPkt 3 V311 7 1 true false [116] None 0 0 8 false 0 false 0 None None None None None in
+  let c := set_need_store (set_store (set_puback (set_status (conn_new g V311) Connected) [7]) [q]) true in
+  let cn := mkPkt 1 V311 0 0 false false [] None 0 0 14 false 0 false 0 None None None None None in
+  let ops := [OTimer TPingreqSend; OSetAutoPub true; OClosed; OSend cn] in
+  store_has 7 (c_store c) = true /\ quiet_history 7 g c ops /\
+  match run_state g c ops with Some c' => c_status c' = Connecting /\ store_has 7 (c_store c') = true | None => False end.
+Proof. vm_compute. repeat split; reflexivity. Qed.
